@@ -22,7 +22,8 @@
    set releases all current waiters                                    signal_set_releases_all_waiters             [L]
    successful Monitor waits never outnumber set() calls                monitor_waits_le_sets                       [L]
    a set() after a waiter took the monitor releases a waiter           monitor_set_releases_a_waiter,              [L]
-                                                                       monitor_woken_waiter_returns_true
+                                                                       monitor_woken_waiter_returns_true,
+                                                                       monitor_set_releases_a_waiter_refuted_before_repair
    timed waits return false only after their timeout has expired       timed_wait_false_only_after_timeout,        [L]
                                                                        deadline_exact, deadline_is_spec
    Thread::join returns the function's result after it has finished    join_returns_result_after_finish,           [P]
@@ -48,7 +49,7 @@
    fixes/C11/01-monitor-timedwait-stolen-wakeup.patch).  The model mirrors the repaired code (flag first, then the
    return code); ex_monitor_stolen_signal below runs that schedule. *)
 From Coq Require Import ZArith List Bool Arith.
-From Sync Require Import Sched SyncSpec SyncModel SyncArith SyncInv SyncTrace SyncSignal SyncTimed SyncMonitor SyncTheorems.
+From Sync Require Import Sched SyncSpec SyncModel SyncArith SyncInv SyncTrace SyncSignal SyncTimed SyncMonitor SyncTheorems SyncUnrepaired.
 Import ListNotations.
 Local Open Scope Z_scope.
 
@@ -145,6 +146,21 @@ Theorem monitor_woken_waiter_returns_true : forall scripts started s0 v0 sched, 
   monf w' = false /\ exists c, trace w' = EvRet v c 1 :: trace w /\ is_mon_wait c = true.
 Proof. exact monitor_woken_waiter_returns_true_l. Qed.
 Print Assumptions monitor_woken_waiter_returns_true.
+
+(* the same clause is FALSE of Monitor::wait(timeout) as it stood before fixes/C11/01 (SyncUnrepaired.v: identical model
+   except that the timed wait returns false on a non-zero return code before it looks at the flag): after the schedule
+   W1 blocks, W2 blocks, rotate, set(), clock to W2's deadline, TimeoutSteal W2, W2 and the setter run to their end -
+   the flag is up, W1 is blocked and marked, W2 has returned false, and no thread is inside set() or woken *)
+Theorem monitor_set_releases_a_waiter_refuted_before_repair :
+  let w := run_unrepaired (init steal_scripts (fun _ => true) false 0) steal_schedule in
+  monf w = true /\ blocked_on MC (st (ps w) 0%nat) = true /\ mark w 0%nat = true /\
+  hd_error (trace w) = Some (EvExit 2%nat 102) /\
+  In (EvRet 1%nat (MonWaitT 10) 0) (trace w) /\
+  forall v, pc (tc w v) <> MonSetLock /\ pc (tc w v) <> MonSetUnlock /\ pc (tc w v) <> MonSetSignal /\
+            (forall m rc dl, st (ps w) v <> TWoken m rc dl) /\
+            (v <> 0%nat -> script (tc w v) = [] /\ (st (ps w) v = TRun \/ exists x, st (ps w) v = TDone x)).
+Proof. exact unrepaired_loses_wakeup. Qed.
+Print Assumptions monitor_set_releases_a_waiter_refuted_before_repair.
 
 (* ---------------- timed waits ---------------- *)
 Theorem timed_wait_false_only_after_timeout : forall scripts started s0 v0 sched, 0 <= v0 ->
